@@ -2,8 +2,6 @@ from collections import defaultdict
 from itertools import chain, combinations
 from typing import Dict, FrozenSet, Iterable, List, Set, Tuple
 
-from ordered_set import OrderedSet
-
 from .dynamic_typing import BaseType, MetaData, ModelMeta, ModelPtr
 from .utils import Index, distinct_words
 
@@ -154,29 +152,23 @@ class ModelRegistry:
                 models2merge[model_a].add(model_b)
                 models2merge[model_b].add(model_a)
 
-        # Groups of models to merge
-        groups: Iterable[Set[ModelMeta]] = [{model, *models} for model, models in models2merge.items()]
-        # Make groups non-overlapping.
-        # This is not optimal algorithm but it works and we probably will not have thousands of models here.
-        flag = True
-        while flag:
-            flag = False
-            new_groups: OrderedSet[FrozenSet[ModelMeta]] = OrderedSet()
-            for gr1 in groups:
-                in_set = False
-                for gr2 in groups:
-                    if gr1 is gr2:
-                        continue
-                    if gr1 & gr2:
-                        in_set = True
-                        old_len = len(new_groups)
-                        new_groups.add(frozenset(gr1 | gr2))
-                        added = old_len < len(new_groups)
-                        flag = flag or added
-                if not in_set:
-                    new_groups.add(gr1)
-            if flag:
-                groups: OrderedSet[FrozenSet[ModelMeta]] = new_groups
+        # Groups of models to merge: connected components of the graph of similar models, in order of appearance.
+        # (Merging of overlapping groups pair by pair until nothing changes gives the same groups but takes exponential time
+        # i.e. if one model is similar to 15 models that are not similar to each other)
+        groups: List[FrozenSet[ModelMeta]] = []
+        grouped: Set[ModelMeta] = set()
+        for model in models2merge:
+            if model in grouped:
+                continue
+            group: Set[ModelMeta] = set()
+            stack = [model]
+            while stack:
+                item = stack.pop()
+                if item not in group:
+                    group.add(item)
+                    stack.extend(models2merge[item])
+            grouped |= group
+            groups.append(frozenset(group))
 
         replaces = []
         replaces_ids = set()
